@@ -5,7 +5,10 @@ from common import Check
 import wfzoo
 import wfcheck as wc
 
-THEOREMS = ["C03_determinant_ratio", "C03_exponential_ratio", "C03_multideterminant_reference_cancels", "C03_product_ratio", "C03_sum_ratio", "C03_batched_calls_are_maps"]
+THEOREMS = ["C03_determinant_ratio", "C03_exponential_ratio", "C03_multideterminant_reference_cancels", "C03_product_ratio", "C03_sum_ratio", "C03_batched_calls_are_maps",
+            "C03_model_ratio_is_the_determinant_ratio", "C03_multideterminant_testrow_up_is_psi_moved_over_psi", "C03_multideterminant_testrow_down_is_psi_moved_over_psi",
+            "C03_shared_determinants_move_together", "C03_testrow_computes"]
+S_TR = "pyqmc/wf/slater.py:Slater._testrow/testvalue"
 SITE = "wave function ratio"
 
 
@@ -176,6 +179,114 @@ def check(ck):
     ck.stats["worst_relative_ratio_error_by_wf"] = worst
 
 
+def check_testrow_model(ck):
+    """Tie K for the Slater ratio: Slater.testvalue / gradient_value / testvalue_many on real (single- and multi-determinant) wave functions against
+    the executable model C03/Multidet.v testrow (which uses C02/SM.v sm_ratio) evaluated by vm_compute in exact rational arithmetic on the object's
+    own inverse matrices, determinant values, determinant maps and coefficients. The model is proved to be Psi'/Psi (Props3/Props4)."""
+    import json
+    from common import qlit, coq_list, frac
+    from pyqmc.wf.slater import Slater
+    fixtures = []
+    mol, mf = wfzoo.lih_rhf()
+    fixtures.append(("slater_rhf", mol, Slater(mol, mf)))
+    molu, mfu = wfzoo.lih_uhf()
+    fixtures.append(("slater_uhf_triplet", molu, Slater(molu, mfu)))
+    molc, mfc, mc = wfzoo.h2_casci()
+    fixtures.append(("multislater_h2_casci", molc, Slater(molc, mfc, mc=mc, tol=0.0)))
+    moll, mfl, mcl = wfzoo.lih_casci()
+    wfl = Slater(moll, mfl, mc=mcl, tol=0.0)
+    fixtures.append(("multislater_lih_casci", moll, wfl))
+    wfr = Slater(moll, mfl, mc=mcl, tol=0.0)
+    wfr.parameters["det_coeff"] = ck.rng.normal(size=np.asarray(wfr.parameters["det_coeff"]).shape)     # every expansion term matters
+    fixtures.append(("multislater_lih_random_coefficients", moll, wfr))
+
+    def q(x):
+        return "(Q2Qc %s)" % qlit(float(x))
+
+    exprs, todo = [], []
+    skipped = 0
+    for name, m, wf in fixtures:
+        nconf = 3
+        cfg = wfzoo.walkers(m, nconf, ck.rng, spread=1.2)
+        cfg = wc.move_off_nodes(wf, cfg, ck.rng)
+        wf.recompute(cfg)
+        try:
+            nup = int(wf._nelec[0])
+            maps = [[int(i) for i in wf._det_map[0]], [int(i) for i in wf._det_map[1]]]
+            occ = wf._det_occup
+            coeff = np.asarray(wf.parameters["det_coeff"])
+            inverse = [np.asarray(x) for x in wf._inverse]
+            dets = [np.asarray(x) for x in wf._dets]
+        except AttributeError as ex:
+            skipped += 1
+            ck.stats["testrow_model_tie_skipped"] = "internals of Slater not found (%s): the model tie needs _nelec/_det_map/_det_occup/_inverse/_dets" % ex
+            continue
+        if any(np.iscomplexobj(x) and np.max(np.abs(np.imag(x))) > 0 for x in inverse + [coeff]):
+            ck.count("testrow_complex_cases_not_modelled")
+            continue
+        nelec = cfg.configs.shape[1]
+        for e in range(nelec):
+            s = int(e >= nup)
+            n = inverse[s].shape[-1]
+            for call in ("testvalue", "gradient_value", "testvalue_many"):
+                pos = cfg.configs[:, e] + ck.rng.normal(size=(nconf, 3)) * (0.05 if call == "gradient_value" else 0.8)
+                epos = wc.raw_electron(cfg, e, pos)
+                inp = {"wf": name, "electron": e, "call": call}
+                if call == "testvalue":
+                    ok, res = ck.guarded(lambda: wf.testvalue(e, epos), "ratio", S_TR, inp)
+                    if not ok:
+                        continue
+                    ratio, (ao, mo) = res
+                elif call == "gradient_value":
+                    ok, res = ck.guarded(lambda: wf.gradient_value(e, epos), "ratio", S_TR, inp)
+                    if not ok:
+                        continue
+                    ratio = res[1]
+                    mo = wf.orbitals.mos(wf.orbitals.aos(wf._gtoval, epos), s)
+                else:
+                    same = np.array([k for k in range(nelec) if int(k >= nup) == s])
+                    ok, res = ck.guarded(lambda: wf.testvalue_many(same, epos), "ratio", S_TR, inp)
+                    if not ok:
+                        continue
+                    ratio = np.asarray(res)[:, list(same).index(e)]
+                    mo = wf.orbitals.mos(wf.orbitals.aos(wf._gtoval, epos), s)
+                ratio = np.asarray(ratio)
+                for w in range(nconf):
+                    vecs = [np.real(np.asarray(mo)[w, o]) for o in occ[s]]
+                    Dv = [[float(np.real(dets[sp][0, w, k]) * np.exp(np.real(dets[sp][1, w, k]))) for k in range(dets[sp].shape[2])] for sp in (0, 1)]
+                    if not all(np.isfinite(x) and x != 0 for sp in (0, 1) for x in Dv[sp]):
+                        ck.count("testrow_cases_with_zero_or_overflowing_determinant_skipped")
+                        continue
+                    terms = [coeff[d] * Dv[0][maps[0][d]] * Dv[1][maps[1][d]] for d in range(len(coeff))]
+                    if abs(sum(terms)) < 1e-6 * sum(abs(t) for t in terms):
+                        ck.count("testrow_cases_near_node_skipped")
+                        continue
+                    invs = coq_list([coq_list([coq_list([q(x) for x in row]) for row in np.real(inverse[s][w, k])]) for k in range(inverse[s].shape[1])])
+                    V = coq_list([coq_list([q(x) for x in v]) for v in vecs])
+                    ex = "testrow_list %d %d %s %s %s %s %s %s %s %s" % (
+                        n, e - s * nup, "true" if s == 0 else "false", invs, V, coq_list([q(x) for x in Dv[0]]), coq_list([q(x) for x in Dv[1]]),
+                        coq_list(["%d%%nat" % i for i in maps[0]]), coq_list(["%d%%nat" % i for i in maps[1]]), coq_list([q(float(np.real(x))) for x in coeff]))
+                    exprs.append(ex)
+                    todo.append((dict(inp, walker=w, n=n, ndet=len(coeff)), complex(ratio[w])))
+                    ck.case(("testrow", name, e, call, w), nontrivial=True)
+    vals = ck.coq_eval("testrow", ["C02.SM", "C03.Multidet"], exprs, prelude="From Coq Require Import Qcanon.\n", shard=20, scope="Z_scope")
+    nmis = 0
+    worst = 0.0
+    for (inp, r), v in zip(todo, vals):
+        if v is None:
+            continue
+        mr = float(frac(v[0]) / v[1])
+        err = abs(mr - r) / max(1.0, abs(mr))
+        worst = max(worst, err)
+        if err > 1e-8:
+            nmis += 1
+            if nmis <= 3:
+                ck.correspondence_broken("C03 model testrow (C03/Multidet.v, C02/SM.v sm_ratio) vs Slater.%s" % inp["call"], json.dumps(dict(inp, model_ratio=mr, impl_ratio=repr(r))))
+    ck.stats["testrow_model_vs_impl_compared"] = len(todo)
+    ck.stats["testrow_model_vs_impl_mismatch"] = nmis
+    ck.stats["testrow_model_vs_impl_worst_relative_difference"] = worst
+
+
 def main(argv):
     ck = Check("C03", argv)
     ck.rule = ("for every wave-function class and composition (single/multi-determinant Slater, two/three-body Jastrow, geminal, GPS, products, sums with real and complex coefficients, JAX variants; open and periodic with real and complex twist): "
@@ -183,7 +294,8 @@ def main(argv):
                "for moves of 0.01-10 bohr (beyond the Jastrow cutoff; outside the periodic cell with the trial object's own wrap counters); a bit-for-bit snapshot of every internal array is compared before/after. Every (class, electron, move) is a distinct non-trivial case.")
     ck.trusted = ["Coq 8.16.1 kernel", "mathcomp 1.15 (determinant ratio: closed under the global context)", "Coq Reals axioms for the real-number identities", "harness/c03.py, wfcheck.py (recompute oracle), wfzoo.py (PySCF fixtures)"]
     ck.assumptions = ["cases whose reference ratio is outside [1e-10, 1e10] are skipped and counted", "JAX classes run with jax_enable_x64"]
-    ck.coq_build("C03", THEOREMS, props_files=["C03/Props.v", "C03/Props2.v"])
+    ck.coq_build("C03", THEOREMS, props_files=["C03/Props.v", "C03/Props2.v", "C03/Props3.v", "C03/Props4.v"])
     if not ck.replay:
+        check_testrow_model(ck)
         check(ck)
     return ck.finish({"JAX class, trial position on a nucleus, NaN": lambda v: str(v.get("input", {}).get("wf", "")).startswith("jax") and v.get("input", {}).get("trial_position") == "on nucleus" and "nan" in str(v.get("got"))})
